@@ -19,7 +19,7 @@ Line == TraceLog[l]
 
 tvars == <<vars, l>>
 
-RPend(r) == CASE rpc[r] \in {"dload_own", "dload_null", "dload_p_own", "dload_p_null"} -> "dload"
+RPend(r) == CASE rpc[r] \in {"dload_own", "dload_null", "dload_p_own", "dload_p_null", "dload_q"} -> "dload"
               [] rpc[r] \in {"massign_own", "massign_null"} -> "massign"
               [] OTHER -> rpc[r]
 
@@ -51,6 +51,10 @@ TStep ==
            [] Line.a = "MClaimOwn" -> MClaimOwn(t)
            [] Line.a = "MAssign" -> MAssign(t)
            [] Line.a = "DtorStart" -> DtorStart(t)
+           [] Line.a = "OvwStart" -> t \in ROvw /\ OvwStart(t)
+           [] Line.a = "OClaim" -> t \in ROvw /\ OClaim(t)
+           [] Line.a = "OStore" -> t \in ROvw /\ OStore(t)
+           [] Line.a = "QClaim" -> t \in ROvw /\ QClaim(t)
            [] Line.a = "DLoad" -> DLoad(t)
            [] Line.a = "SwapReady" -> SwapReady(t)
            [] Line.a = "FlagStore" -> FlagStore(t)
@@ -70,7 +74,7 @@ TSilentLoad ==
     /\ Line.a \in {"CheckReady", "DLoad"}
     /\ LET t == Line.t IN
          \/ (t \in Waiters /\ wpc[t] # "check")
-         \/ (t \in Resolvers /\ rpc[t] \notin {"dload_own", "dload_null", "dload_p_own", "dload_p_null"})
+         \/ (t \in Resolvers /\ rpc[t] \notin {"dload_own", "dload_null", "dload_p_own", "dload_p_null", "dload_q"})
     /\ UNCHANGED vars
     /\ l' = l + 1
     /\ LET p == TraceLog[l].p IN ObsMatchesNext(p)
@@ -82,22 +86,23 @@ TReset ==
     /\ ~ ENABLED Next
     /\ l' = l + 1
     /\ owner' = IF RFinal # {} \/ PreResolved # "none" THEN "null" ELSE "fut"
-    /\ slot' = IF PreResolved # "none" THEN "ready" ELSE "null"
+    /\ slot' = IF PreResolved # "none" THEN "ready" ELSE IF WMp # {} THEN CHOOSE w \in WMp : TRUE ELSE "null"
     /\ nxt' = [w \in Waiters |-> "null"]
     /\ tag' = IF RFinal # {} THEN "val" ELSE IF PreResolved \in {"val", "exc"} THEN PreResolved ELSE "none"
     /\ payload' = IF RFinal # {} THEN CHOOSE r \in RFinal : TRUE ELSE IF PreResolved \in {"val", "exc"} THEN "pre" ELSE "none"
     /\ writes' = IF RFinal # {} \/ PreResolved \in {"val", "exc"} THEN 1 ELSE 0
-    /\ rpc' = [r \in Resolvers |-> IF r \in RFinal THEN "swap" ELSE IF r \in RDtor THEN "dtor"
-                                  ELSE IF r \in RMasg THEN "mclaim_own" ELSE "claim"]
+    /\ rpc' = [r \in Resolvers |-> InitRpc(r)]
     /\ rres' = [r \in Resolvers |-> "none"]
     /\ cur' = [r \in Resolvers |-> "null"]
     /\ rest' = [r \in Resolvers |-> "null"]
     /\ sp' = [r \in Resolvers |-> <<>>]
     /\ swapped' = {}
     /\ flag' = [w \in Waiters |-> FALSE]
-    /\ wpc' = [w \in Waiters |-> IF w \in WCb THEN "cas" ELSE "check"]
+    /\ wpc' = [w \in Waiters |-> InitWpc(w)]
     /\ seen' = [w \in Waiters |-> NoRes]
     /\ resumes' = [w \in Waiters |-> 0]
+    /\ arg' = [r \in Resolvers |-> "intact"]
+    /\ built' = IF RFinal # {} THEN 1 ELSE 0
 
 TNext == TStep \/ TSilentLoad \/ TReset
 TSpec == TInit /\ [][TNext]_tvars
